@@ -1,6 +1,6 @@
 //! Engine `rustid` (C09/C31 model tie): the real identifier functions on one name.
 //! Request: `<hex name>`
-//! Answer:  `rust=<hex to_rust_ident> c=<hex to_c_ident> snake=<hex> camel=<hex> pascal=<hex> shouty=<hex> ext=<hex make_external_component-like>`
+//! Answer:  `rust=<hex to_rust_ident> c=<hex to_c_ident> snake=<hex> camel=<hex> pascal=<hex> shouty=<hex> valid=<0|1>`   (valid = wit_parser::validate_id)
 //!   rust  = wit_bindgen_rust::to_rust_ident (public)
 //!   c     = wit_bindgen_c::to_c_ident       (public; the C++ backend imports exactly this function)
 //!   snake/camel/pascal/shouty = heck 0.5 (the conversions the generators call on type / case names)
@@ -10,12 +10,13 @@ use heck::{ToPascalCase, ToShoutySnakeCase, ToSnakeCase, ToUpperCamelCase};
 pub fn handle(line: &str) -> String {
     let Some(name) = unhex(line.trim()) else { return "bad-request".into() };
     format!(
-        "rust={} c={} snake={} camel={} pascal={} shouty={}",
+        "rust={} c={} snake={} camel={} pascal={} shouty={} valid={}",
         hex(&wit_bindgen_rust::to_rust_ident(&name)),
         hex(&wit_bindgen_c::to_c_ident(&name)),
         hex(&name.to_snake_case()),
         hex(&name.to_upper_camel_case()),
         hex(&name.to_pascal_case()),
         hex(&name.to_shouty_snake_case()),
+        if wit_parser::validate_id(&name).is_ok() { 1 } else { 0 },
     )
 }
